@@ -420,28 +420,30 @@ ares_status_t ares_reinit(ares_channel_t *channel)
     return ARES_SUCCESS;
   }
   channel->reinit_pending = ARES_TRUE;
-  ares_channel_unlock(channel);
 
   if (ares_threadsafety()) {
-    /* clean up the prior reinit process's thread.  We know the thread isn't
-     * running since reinit_pending was false */
+    /* Keep holding the lock while the thread handle is replaced, otherwise a
+     * concurrent caller that sees the new thread finish (reinit_pending false
+     * again) races with us on channel->reinit_thread.
+     *
+     * clean up the prior reinit process's thread.  We know the thread isn't
+     * running since reinit_pending was false, it will not take the lock
+     * again so joining it here cannot deadlock. */
     if (channel->reinit_thread != NULL) {
       void *rv;
       ares_thread_join(channel->reinit_thread, &rv);
       channel->reinit_thread = NULL;
     }
 
-    /* Spawn a new thread */
+    /* Spawn a new thread, it can't apply anything until we unlock */
     status =
       ares_thread_create(&channel->reinit_thread, ares_reinit_thread, channel);
     if (status != ARES_SUCCESS) {
-      /* LCOV_EXCL_START: UntestablePath */
-      ares_channel_lock(channel);
-      channel->reinit_pending = ARES_FALSE;
-      ares_channel_unlock(channel);
-      /* LCOV_EXCL_STOP */
+      channel->reinit_pending = ARES_FALSE; /* LCOV_EXCL_LINE: UntestablePath */
     }
+    ares_channel_unlock(channel);
   } else {
+    ares_channel_unlock(channel);
     /* Threading support not available, call directly */
     ares_reinit_thread(channel);
   }
